@@ -105,7 +105,7 @@ class LiqCheck(SessionCheck):
 CHECK = LiqCheck(
     prop='C09', profile=profile,
     monitors=lambda: [Registry(), LiquidationMonitor(('C09',))],
-    tiers={'quick': 1000, 'thorough': 80_000},
+    tiers={'quick': 1000, 'thorough': 40_000},
     nontrivial=lambda r: r['counters'].get('c09_eligible', 0) + r['counters'].get('c09_within_ulps', 0) + r['counters'].get('c09_touch_exact', 0) > 0,
     rule=('two-pass runs: pass 1 = a seeded session (80% isolated futures, leverage 1-125, long/short, averaged entries, with and '
           'without protective stops, both simulators); the monitor records the liquidation price of every open isolated position at '
